@@ -330,6 +330,8 @@ func c01GenBoltAtoms(r *rng, ds *c01Dataset, schemas []*c01Schema, out *bufio.Wr
 func c01GenBolt(tier string, r *rng, n int, depth int, out *bufio.Writer) {
 	g := &c01Gen_{r: r, illRate: 8}
 	schemas := []*c01Schema{c01Candidates(c01Universe, 0, 3), c01Candidates(c01Universe, 1, 3)}
+	// one case in six draws its symbols from dotted names of up to four segments
+	deep := []*c01Schema{c01Candidates(c01Universe, 0, 4), c01Candidates(c01Universe, 1, 4)}
 	nAtomSets := 1
 	if tier == "thorough" {
 		nAtomSets = 12
@@ -350,9 +352,13 @@ func c01GenBolt(tier string, r *rng, n int, depth int, out *bufio.Writer) {
 		if i%3 == 0 {
 			d = 0
 		}
-		f := g.filter(schemas[root], d)
+		sc := schemas[root]
+		if i%6 == 5 {
+			sc = deep[root]
+		}
+		f := g.filter(sc, d)
 		if d == 0 {
-			f = g.atom(schemas[root], 1) // single atoms may still own a sub-query
+			f = g.atom(sc, 1) // single atoms may still own a sub-query
 		}
 		out.WriteString(c01BoltLine(ds, root, f))
 		out.WriteByte('\n')
